@@ -144,8 +144,9 @@ def run(tier="quick", seed=0, replay=None):
         desc = {"config": _expl.cfg_desc(cfg), "calls": []}
         bad = None
         uniform_n = True
+        manual = (i % 5 == 4)   # the user manages the storage: update_storage=False on every call, explainer.update_storage(x, y) by hand
         for t in range(4):
-            upd = True if t == 0 else chk.rng.random() < 0.8
+            upd = (True if t == 0 else chk.rng.random() < 0.8) and not manual
             kw = {"update_storage": upd}
             n_eff = cfg["n_inner"]
             if override and t >= 1 and chk.rng.random() < 0.5:
@@ -155,13 +156,20 @@ def run(tier="quick", seed=0, replay=None):
             rec = rig.step(**kw)
             desc["calls"].append({k: v for k, v in kw.items()})
             bad = contract_fails(rig, cfg, rec, t, upd, n_eff)
+            if manual and not bad:
+                nb = len(rig.ex._storage)
+                rig.ex.update_storage(dict(rig.gen_x()), rig.gen_y())
+                rig.storage_updates.pop()
+                rig.log = []
+                if len(rig.ex._storage) not in (nb + 1, nb) or (t == 0 and nb != 0):
+                    bad = f"call {t + 1} with update_storage=False left {nb} observation(s) in a storage that only the user updates"
             if bad:
                 chk.violation(f"contract:{kind}", f"{kind} {_expl.cfg_desc(cfg)}: {bad}", dict(desc, steps=[{k: r[k] for k in ('x', 'y', 'log')} for r in rig.steps]))
                 break
         chk.case(dict(desc, first_x=rig.steps[0]["x"]), nontrivial=True, sample=(i < 2))
         chk.stat(f"kind:{kind}")
         chk.stat(f"names:{cfg['names_kind']}")
-        if not bad and uniform_n:
+        if not bad and uniform_n and not manual:
             reqs.append(rig.eff_request(()))
             impls.append((cfg, rig))
     if core.driver_available():
